@@ -133,7 +133,9 @@ func (r *renderer) Register(kind ast.NodeKind, v NodeRendererFunc) {
 
 // Render renders the given AST node to the given writer with the given Renderer.
 func (r *renderer) Render(w io.Writer, source []byte, n ast.Node) error {
+	verifPoint("render.enter")
 	r.initSync.Do(func() {
+		verifPoint("render.init.begin")
 		r.options = r.config.Options
 		r.config.NodeRenderers.Sort()
 		l := len(r.config.NodeRenderers)
@@ -153,6 +155,7 @@ func (r *renderer) Render(w io.Writer, source []byte, n ast.Node) error {
 		}
 		r.config = nil
 		r.nodeRendererFuncsTmp = nil
+		verifPoint("render.init.end")
 	})
 	writer, ok := w.(util.BufWriter)
 	if !ok {
@@ -171,6 +174,7 @@ func (r *renderer) Render(w io.Writer, source []byte, n ast.Node) error {
 		}
 		return s, err
 	})
+	verifPoint("render.exit")
 	if err != nil {
 		return err
 	}
